@@ -536,7 +536,9 @@ func (i *interpreter) symConv(dst types.BasicKind, x sym) value {
 		}
 	case sInt && dst == types.Float64:
 		if i.ex.IntMode {
-			unsupported("int-mode int->float conversion")
+			// mathematical integer (already reduced to the kind's range) ->
+			// 64-bit two's complement -> IEEE double
+			return i.mkSym(c.FPFromBV(c.IntToBV64(x.t), ssigned), dst)
 		}
 		return i.mkSym(c.FPFromBV(x.t, ssigned), dst)
 	case x.k == types.Float64 && dInt:
